@@ -593,6 +593,35 @@ func checkResponse(c *reqcase.Case, rq *reqcase.ReqSpec, ob reqcase.Obs) (string
 	if n != 1 {
 		return fmt.Sprintf("response %s is classified as %d of result/resource/error by the client package", data, n), false
 	}
+	// the typed accessors agree with the classification
+	{
+		var x interface{}
+		_, e1 := p.ParseModel(&x)
+		_, e2 := p.ParseCollection(&x)
+		_, _, e3 := p.AccessResult()
+		e4 := p.ParseResult(&x)
+		switch {
+		case p.HasError():
+			for i, e := range []error{e1, e2, e3, e4} {
+				if e == nil || e.Error() != p.Error.Error() {
+					return fmt.Sprintf("error response %s: typed accessor %d returns %v, expected the response's error", data, i, e), false
+				}
+			}
+		case p.HasResource():
+			for i, e := range []error{e1, e2, e3, e4} {
+				if e == nil {
+					return fmt.Sprintf("resource response %s: typed accessor %d (model/collection/access/result) succeeds", data, i), false
+				}
+			}
+		default:
+			if e4 != nil {
+				return fmt.Sprintf("result response %s: ParseResult fails: %v", data, e4), false
+			}
+			if e1 == nil && e2 == nil {
+				return fmt.Sprintf("result response %s is accepted both as a model and as a collection", data), false
+			}
+		}
+	}
 	nt := strings.Contains(string(data), `"meta"`) || strings.Contains(string(data), `\`) || bytes.Count(data, []byte("{")) > 2
 	if d.Marker == "" {
 		if !d.Silent && !p.HasError() {
